@@ -7,6 +7,7 @@ mod c21;
 mod c20;
 mod c03;
 mod c15;
+mod c48;
 
 fn main() {
     let args: Vec<String> = std::env::args().collect();
@@ -21,6 +22,7 @@ fn main() {
         "c20" => c20::run(&opts),
         "c03" => c03::run(&opts),
         "c15" => c15::run(&opts),
+        "c48" => c48::run(&opts),
         other => {
             eprintln!("unknown subcommand {other}");
             2
